@@ -80,6 +80,12 @@ impl Value {
         ensures r.is_ok() ==> script_evaluated(*self, (*ctx).props_spec(), r.unwrap().hash_key()),
     { unimplemented!() }
 
+    /// milu `value_of`: one evaluation step only -- the result may still be an unevaluated / native object, so it
+    /// does NOT establish `script_evaluated` (a key hashed from it is not the value of the expression)
+    #[verifier::external_body]
+    pub fn value_of(&self, ctx: Arc<ScriptContext>) -> (r: Result<Value, Error>)
+    { unimplemented!() }
+
     /// `<Value as Hash>::hash`
     #[verifier::external_body]
     pub fn hash(&self, state: &mut DefaultHasher)
